@@ -18,6 +18,7 @@ import (
 	"io"
 	"math/rand"
 	"net/http"
+	"net/http/httptest"
 	"runtime"
 	"sort"
 	"strings"
@@ -29,13 +30,17 @@ import (
 	"github.com/bitcoin-sv/block-headers-service/notification"
 	"github.com/bitcoin-sv/block-headers-service/repository"
 	"github.com/bitcoin-sv/block-headers-service/service"
+	"github.com/bitcoin-sv/block-headers-service/transports/websocket"
 	"github.com/bitcoin-sv/block-headers-service/verifharness/deco"
 	"github.com/bitcoin-sv/block-headers-service/verifharness/ev"
 	"github.com/bitcoin-sv/block-headers-service/verifharness/gen"
 	"github.com/bitcoin-sv/block-headers-service/verifharness/mb"
+	"github.com/bitcoin-sv/block-headers-service/verifharness/refmodel"
 	"github.com/bitcoin-sv/block-headers-service/verifharness/rig"
 	"github.com/bitcoin-sv/block-headers-service/verifharness/snap"
 	"github.com/centrifugal/centrifuge"
+	cfgo "github.com/centrifugal/centrifuge-go"
+	"github.com/gin-gonic/gin"
 )
 
 func init() {
@@ -61,6 +66,7 @@ var behaviours = []string{bOK, bError, bSlow, bBlocked}
 
 const (
 	chWS        = "websocket"
+	chWSClient  = "websocket-client"
 	chHookOK    = "webhook"
 	chHookFail  = "webhook-failing"
 	urlHookOK   = "http://hook-ok.verif.example/events"
@@ -182,16 +188,127 @@ func (c *recChan) Notify(e notification.Event) {
 }
 
 // recPublisher is a recording notification.WebsocketPublisher.
-type recPublisher struct{ b *board }
+type recPublisher struct {
+	b    *board
+	next notification.WebsocketPublisher // live mode: the real centrifuge node
+}
 
-func (p *recPublisher) Publish(channel string, data []byte, _ ...centrifuge.PublishOption) (centrifuge.PublishResult, error) {
+func (p *recPublisher) Publish(channel string, data []byte, opts ...centrifuge.PublishOption) (centrifuge.PublishResult, error) {
 	p.b.rec.add(delivery{Channel: chWS, Payload: append([]byte(nil), data...), Sync: insideAdd(), Extra: channel})
 	n := p.b.wsSeq.Add(1)
 	if every := p.b.wsEvery.Load(); every > 0 && n%every == 0 {
 		p.b.wsFail.Add(1)
 		return centrifuge.PublishResult{}, errors.New("verif: injected websocket publish failure")
 	}
+	if p.next != nil {
+		return p.next.Publish(channel, data, opts...)
+	}
 	return centrifuge.PublishResult{}, nil
+}
+
+// liveWS is a live websocket node (transports/websocket server on a real listener) with a
+// real centrifuge client subscribed to "headers".
+type liveWS struct {
+	ws     websocket.Server
+	srv    *httptest.Server
+	client *cfgo.Client
+	sub    *cfgo.Subscription
+	mu     sync.Mutex
+	recv   [][]byte
+	sent   chan string
+	seq    int
+}
+
+const sentinelKey = "verif_sentinel"
+
+func (l *liveWS) onPublication(e cfgo.PublicationEvent) {
+	if strings.Contains(string(e.Data), sentinelKey) {
+		select {
+		case l.sent <- string(e.Data):
+		default:
+		}
+		return
+	}
+	l.mu.Lock()
+	l.recv = append(l.recv, append([]byte(nil), e.Data...))
+	l.mu.Unlock()
+}
+
+func (l *liveWS) take() [][]byte {
+	l.mu.Lock()
+	defer l.mu.Unlock()
+	out := l.recv
+	l.recv = nil
+	return out
+}
+
+// connect starts the node, serves its entry point and subscribes the client.
+func (l *liveWS) connect() error {
+	if err := l.ws.Start(); err != nil {
+		return err
+	}
+	eng := gin.New()
+	l.ws.SetupEntrypoint(eng)
+	l.srv = httptest.NewServer(eng)
+	l.sent = make(chan string, 4)
+	l.client = cfgo.NewJsonClient("ws"+strings.TrimPrefix(l.srv.URL, "http")+"/connection/websocket", cfgo.Config{HandshakeTimeout: 15 * time.Second, ReadTimeout: 30 * time.Second, WriteTimeout: 15 * time.Second, MaxServerPingDelay: 60 * time.Second})
+	sub, err := l.client.NewSubscription("headers", cfgo.SubscriptionConfig{})
+	if err != nil {
+		return err
+	}
+	l.sub = sub
+	subscribed := make(chan struct{}, 1)
+	sub.OnSubscribed(func(cfgo.SubscribedEvent) {
+		select {
+		case subscribed <- struct{}{}:
+		default:
+		}
+	})
+	sub.OnPublication(l.onPublication)
+	if err := l.client.Connect(); err != nil {
+		return err
+	}
+	if err := sub.Subscribe(); err != nil {
+		return err
+	}
+	select {
+	case <-subscribed:
+		return nil
+	case <-time.After(10 * time.Second):
+		return errors.New("subscription to 'headers' not confirmed in time")
+	}
+}
+
+// barrier publishes a sentinel on "headers" and waits until the client has seen it:
+// publications of one channel reach a client in order, so everything published before has
+// arrived (or never will).
+func (l *liveWS) barrier() error {
+	l.seq++
+	want := fmt.Sprintf(`{"%s":%d}`, sentinelKey, l.seq)
+	if _, err := l.ws.Publisher().Publish("headers", []byte(want)); err != nil {
+		return err
+	}
+	deadline := time.After(20 * time.Second)
+	for {
+		select {
+		case got := <-l.sent:
+			if got == want {
+				return nil
+			}
+		case <-deadline:
+			return errors.New("sentinel not received by the websocket client")
+		}
+	}
+}
+
+func (l *liveWS) close() {
+	if l.client != nil {
+		l.client.Close()
+	}
+	if l.srv != nil {
+		l.srv.Close()
+	}
+	_ = l.ws.Shutdown()
 }
 
 // recClient is a recording notification.WebhookTargetClient.
@@ -269,10 +386,17 @@ type env struct {
 	// fault injection (ingesting goroutine only)
 	failInsert, failUpdate bool
 	injected               string
+	base                   int // goroutine baseline
+	live                   *liveWS
 }
 
-func newEnv(r *ev.Run) (*env, error) {
+func newEnv(r *ev.Run, live bool) (*env, error) {
 	e := &env{r: r, b: &board{beh: map[string]string{}, release: make(chan struct{})}, names: []string{"rec1", "rec2", "rec3"}}
+	var liveErr error
+	name := "c11.db"
+	if live {
+		name = "c11-live.db"
+	}
 	hooks := &deco.Hooks{Before: func(op string, write bool, _ string) error {
 		if op == "AddHeaderToDatabase" && e.failInsert {
 			e.failInsert, e.injected = false, "insert"
@@ -285,7 +409,7 @@ func newEnv(r *ev.Run) (*env, error) {
 		return nil
 	}}
 	st, err := rig.New(rig.Options{
-		Dir: r.Scratch, Name: "c11.db", NoHTTP: true,
+		Dir: r.Scratch, Name: name, NoHTTP: true,
 		WrapHeaders: deco.Wrap(hooks),
 		WrapRepos:   func(rp *repository.Repositories) { e.repos = rp },
 		AfterSvc: func(s *service.Services, c *config.AppConfig) {
@@ -296,7 +420,17 @@ func newEnv(r *ev.Run) (*env, error) {
 			s.Notifier.AddChannel(&recChan{name: e.names[0], b: e.b})
 			s.Notifier.AddChannel(s.Webhooks)
 			s.Notifier.AddChannel(&recChan{name: e.names[1], b: e.b})
-			s.Notifier.AddChannel(notification.NewWebsocketChannel(&lg, &recPublisher{b: e.b}, c.Websocket))
+			pub := &recPublisher{b: e.b}
+			if live {
+				ws, err := websocket.NewServer(&lg, s, false)
+				if err != nil {
+					liveErr = err
+				} else {
+					e.live = &liveWS{ws: ws}
+					pub.next = ws.Publisher()
+				}
+			}
+			s.Notifier.AddChannel(notification.NewWebsocketChannel(&lg, pub, c.Websocket))
 			s.Notifier.AddChannel(&recChan{name: e.names[2], b: e.b})
 		},
 	})
@@ -304,7 +438,24 @@ func newEnv(r *ev.Run) (*env, error) {
 		return nil, err
 	}
 	e.st = st
+	if live {
+		if liveErr == nil {
+			liveErr = e.live.connect()
+		}
+		if liveErr != nil {
+			e.close()
+			return nil, liveErr
+		}
+	}
+	e.settle()
 	return e, nil
+}
+
+func (e *env) close() {
+	if e.live != nil {
+		e.live.close()
+	}
+	e.st.Destroy()
 }
 
 func (e *env) stateOf(hash string) string {
@@ -315,19 +466,45 @@ func (e *env) stateOf(hash string) string {
 	return s
 }
 
+// settle measures the process's goroutine baseline: the minimum count seen while nothing
+// of the harness is in flight.
+func (e *env) settle() {
+	e.base = runtime.NumGoroutine()
+	same := 0
+	for i := 0; i < 2000 && same < 200; i++ {
+		time.Sleep(100 * time.Microsecond)
+		g := runtime.NumGoroutine()
+		if g < e.base {
+			e.base, same = g, 0
+		} else {
+			same++
+		}
+	}
+}
+
 // quiesce waits until no delivery goroutine is left in flight: the goroutine count is back
-// at the baseline plus the deliveries deliberately parked. want() tells whether every
-// expected delivery has been recorded. Returns how quiescence was established.
-func (e *env) quiesce(baseline int, want func() bool) string {
+// at the baseline (the minimum ever observed in this process since the stack was built)
+// plus, while allowParked, the deliveries deliberately parked in blocked channels. want()
+// tells whether every expected delivery has been recorded; when the goroutine count says
+// "nothing in flight" but deliveries are missing, the verdict "missing" is only accepted
+// after the no-goroutine-in-flight observation has been repeated many times.
+// Returns how quiescence was established ("" = watchdog).
+func (e *env) quiesce(allowParked bool, want func() bool) string {
 	start := time.Now()
 	quiet, stable, last := 0, 0, -1
 	for {
 		g := runtime.NumGoroutine()
 		p := int(e.b.parked.Load())
-		if g <= baseline+p {
+		if g < e.base {
+			e.base = g
+		}
+		if (allowParked && g <= e.base+p) || (!allowParked && p == 0 && g <= e.base) {
 			quiet++
-			if quiet >= 3 {
+			if quiet >= 3 && want() {
 				return "goroutines"
+			}
+			if quiet >= 400 {
+				return "goroutines" // nothing in flight, deliveries missing: the oracle will say which
 			}
 		} else {
 			quiet = 0
@@ -339,20 +516,13 @@ func (e *env) quiesce(baseline int, want func() bool) string {
 		}
 		// every expected delivery recorded and the goroutine count has not moved for a long
 		// series of polls: something else in the process started a long-lived goroutine
-		if stable >= 400 && want() {
+		if stable >= 5000 && want() && (allowParked || p == 0) {
 			return "count"
 		}
 		if time.Since(start) > 30*time.Second { // watchdog only, never decides a violation
-			if want() {
-				return "count"
-			}
 			return ""
 		}
-		if quiet == 0 {
-			time.Sleep(100 * time.Microsecond)
-		} else {
-			runtime.Gosched()
-		}
+		time.Sleep(100 * time.Microsecond)
 	}
 }
 
@@ -393,6 +563,10 @@ func (e *env) runHistory(caseID string, rng *rand.Rand, hist gen.History, pFail 
 	b.beh, b.release = beh, release
 	b.mu.Unlock()
 	b.wsEvery.Store([]int64{0, 2, 3}[rng.Intn(3)])
+	if e.live != nil {
+		b.wsEvery.Store(0) // a failed publish is not delivered: no injected publish failures with the live node
+		e.live.take()
+	}
 	b.rec.take()
 	released := false
 	defer func() {
@@ -400,7 +574,6 @@ func (e *env) runHistory(caseID string, rng *rand.Rand, hist gen.History, pFail 
 			close(release)
 		}
 	}()
-	baseline := runtime.NumGoroutine()
 
 	detail := func(extra map[string]any) map[string]any {
 		d := map[string]any{"history_hex": hist.Hex(), "behaviours": beh, "p_store_failure": fmt.Sprint(pFail), "inject_update_state": fmt.Sprint(failUpdates)}
@@ -411,15 +584,20 @@ func (e *env) runHistory(caseID string, rng *rand.Rand, hist gen.History, pFail 
 	}
 
 	// ---- ingestion
-	subs := make([]submission, 0, len(hist.Hdrs))
+	subs := make([]submission, 0, len(hist.Hdrs)+8)
 	stored := map[string]int{}       // hash -> number of submissions reported as stored
 	notStored := map[string]string{} // hash -> situation of a submission that was not stored
 	rows := map[string]submission{}
 	nStored := 0
 	returnedWhileBlocked := 0
-	for i, h := range hist.Hdrs {
+	// a submission that failed because of an injected store failure is mostly redelivered
+	// right away (as a peer would), so that "failed, then stored" is exercised too
+	work := append([]refmodel.Hdr(nil), hist.Hdrs...)
+	retried := map[int]bool{}
+	for i := 0; i < len(work); i++ {
+		h := work[i]
 		e.failInsert, e.failUpdate, e.injected = false, false, ""
-		if pFail > 0 && rng.Float64() < pFail {
+		if pFail > 0 && !retried[i] && rng.Float64() < pFail {
 			if failUpdates && rng.Intn(2) == 0 {
 				e.failUpdate = true
 			} else {
@@ -446,9 +624,15 @@ func (e *env) runHistory(caseID string, rng *rand.Rand, hist gen.History, pFail 
 				notStored[s.Hash] = sit
 			}
 			r.Count("submissions_"+sit, 1)
+			if s.Injected == "insert" && rng.Float64() < 0.7 {
+				work = append(work[:i+1], append([]refmodel.Hdr{h}, work[i+1:]...)...)
+				retried[i+1] = true
+				r.Count("redeliveries_after_injected_failure", 1)
+			}
 		}
 		subs = append(subs, s)
 	}
+	hist = gen.History{Hdrs: work} // what was really submitted (replay detail, shape signature)
 	e.failInsert, e.failUpdate = false, false
 	r.Count("submissions", int64(len(subs)))
 	r.Count("stored_headers", int64(nStored))
@@ -471,7 +655,7 @@ func (e *env) runHistory(caseID string, rng *rand.Rand, hist gen.History, pFail 
 			return true
 		}
 	}
-	how := e.quiesce(baseline, wantAll(nonBlocked))
+	how := e.quiesce(true, wantAll(nonBlocked))
 	if how == "" {
 		r.Inconclusive(caseID, "deliveries still in flight after the watchdog (phase 1)")
 		return
@@ -492,12 +676,23 @@ func (e *env) runHistory(caseID string, rng *rand.Rand, hist gen.History, pFail 
 	// ---- phase 2: release, wait for the parked deliveries
 	released = true
 	close(release)
-	how = e.quiesce(baseline, wantAll(blockedNames))
+	how = e.quiesce(false, wantAll(blockedNames))
 	if how == "" {
 		r.Inconclusive(caseID, "deliveries still in flight after the watchdog (phase 2)")
 		return
 	}
 	phase2 := b.rec.take()
+	if e.live != nil {
+		if err := e.live.barrier(); err != nil {
+			r.Inconclusive(caseID, "live websocket: "+err.Error())
+			return
+		}
+		for _, p := range e.live.take() {
+			phase1 = append(phase1, delivery{Channel: chWSClient, Payload: p, Extra: "headers"})
+		}
+		kind[chWSClient] = chWSClient
+		r.Count("live_websocket_histories", 1)
+	}
 
 	// ---- offline oracle
 	table, err := snap.TakeHeaders(e.st.DB)
@@ -508,6 +703,7 @@ func (e *env) runHistory(caseID string, rng *rand.Rand, hist gen.History, pFail 
 	type key struct{ ch, hash string }
 	got := map[key][]eventJSON{}
 	lateOnNonBlocked := map[string]int{}
+	syncKinds := map[string]bool{}
 	violated := map[string]bool{}
 	violate := func(sig, what string, extra map[string]any) {
 		if violated[sig] {
@@ -520,11 +716,11 @@ func (e *env) runHistory(caseID string, rng *rand.Rand, hist gen.History, pFail 
 		for _, d := range log {
 			k := kind[d.Channel]
 			if d.Sync {
-				violate("sync-delivery|channel="+k, "the event was delivered to channel "+d.Channel+" on the goroutine executing Chains.Add (a slow or blocking channel would stall ingestion)", nil)
+				syncKinds[k] = true
 			}
 			evj, err := parseEvent(d.Payload)
 			if err != nil {
-				violate("payload|channel="+k+"|unparsable", fmt.Sprintf("channel %s delivered %s: %v", d.Channel, clip(string(d.Payload)), err), nil)
+				violate("payload|unparsable", fmt.Sprintf("channel %s delivered %s: %v", d.Channel, clip(string(d.Payload)), err), nil)
 				continue
 			}
 			if d.Channel == chWS && d.Extra != "headers" {
@@ -541,10 +737,25 @@ func (e *env) runHistory(caseID string, rng *rand.Rand, hist gen.History, pFail 
 		}
 	}
 	// a non-blocked channel that only completed after the release was held up by the blocked one
-	for ch, n := range lateOnNonBlocked {
-		violate("held-up-by-blocked-channel|channel="+kind[ch], fmt.Sprintf("%d deliveries on channel %s happened only after the blocked channel was released", n, ch), nil)
+	if len(lateOnNonBlocked) > 0 {
+		late := map[string]string{}
+		for ch, n := range lateOnNonBlocked {
+			late[ch+" ("+kind[ch]+")"] = fmt.Sprint(n)
+		}
+		violate("held-up-by-blocked-channel", fmt.Sprintf("deliveries on non-blocked channels happened only after the blocked channel was released: %v", late), map[string]any{"late_deliveries": late})
+	}
+	if len(syncKinds) > 0 {
+		var ks []string
+		for k := range syncKinds {
+			ks = append(ks, k)
+		}
+		sort.Strings(ks)
+		violate("sync-delivery", "events were delivered on the goroutine executing Chains.Add (a slow or blocking channel would stall ingestion); channels: "+strings.Join(ks, ", "), map[string]any{"channels": ks})
 	}
 	channels := append([]string{chWS, chHookOK}, e.names...)
+	if e.live != nil {
+		channels = append(channels, chWSClient)
+	}
 	// exactly once per stored header, field equality
 	type miss struct{ want, got int }
 	for hash, want := range stored {
@@ -556,14 +767,14 @@ func (e *env) runHistory(caseID string, rng *rand.Rand, hist gen.History, pFail 
 			}
 			for _, evj := range evs {
 				if bad := e.checkFields(evj, rows[hash], table); len(bad) > 0 {
-					violate("field|"+strings.Join(bad, "+")+"|channel="+kind[ch], fmt.Sprintf("event for stored header %s on channel %s differs from the stored header in %v", hash, ch, bad),
+					violate("field|"+strings.Join(bad, "+"), fmt.Sprintf("event for stored header %s on channel %s differs from the stored header in %v", hash, ch, bad),
 						map[string]any{"hash": hash, "event": fmt.Sprintf("%+v", *evj.Header), "row": table[hash].String(), "state_after_add": rows[hash].StateAfter})
 				}
 				r.Count("events_compared_with_stored_header", 1)
 			}
 		}
 		if fn := got[key{chHookFail, hash}]; len(fn) > want {
-			violate("count|channel="+chHookFail+"|stored|more-than-one", fmt.Sprintf("the failing webhook was called %d times for stored header %s", len(fn), hash), nil)
+			violate("count|failing-webhook|more-than-one", fmt.Sprintf("the failing webhook was called %d times for stored header %s", len(fn), hash), nil)
 		}
 		if len(perCh) == 0 {
 			continue
@@ -581,7 +792,7 @@ func (e *env) runHistory(caseID string, rng *rand.Rand, hist gen.History, pFail 
 			cls[c] = true
 		}
 		sort.Strings(chs)
-		where := strings.Join(chs, ",")
+		where := "some"
 		if len(perCh) == len(channels) {
 			where = "all"
 		}
@@ -594,8 +805,8 @@ func (e *env) runHistory(caseID string, rng *rand.Rand, hist gen.History, pFail 
 		if len(blockedNames) > 0 {
 			others = "blocked"
 		}
-		violate(fmt.Sprintf("count|stored|channels=%s|got=%s|with=%s", where, strings.Join(cl, ","), others),
-			fmt.Sprintf("stored header %s: number of ADD events per channel differs from 1: %v", hash, perCh), map[string]any{"hash": hash})
+		violate(fmt.Sprintf("count|stored|channels=%s|got=%s", where, strings.Join(cl, ",")),
+			fmt.Sprintf("stored header %s: number of ADD events per channel {want got} differs on %v (other channel behaviour present: %s): %v", hash, chs, others, perCh), map[string]any{"hash": hash, "channels": chs})
 	}
 	// nothing for submissions that were not stored
 	for k, evs := range got {
@@ -606,7 +817,7 @@ func (e *env) runHistory(caseID string, rng *rand.Rand, hist gen.History, pFail 
 		if !ok {
 			sit = "never-submitted"
 		}
-		violate("event-for-nonstored|"+sit+"|channel="+kind[k.ch], fmt.Sprintf("%d ADD events on channel %s for %s, a %s submission", len(evs), k.ch, k.hash, sit), map[string]any{"hash": k.hash})
+		violate("event-for-nonstored|"+sit, fmt.Sprintf("%d ADD events on channel %s for %s, a %s submission", len(evs), k.ch, k.hash, sit), map[string]any{"hash": k.hash})
 	}
 	for h, sit := range notStored {
 		if stored[h] == 0 {
@@ -690,39 +901,63 @@ func body(r *ev.Run) {
 	r.Require("deliveries_websocket", 1000)
 	r.Require("deliveries_webhook", 1000)
 	r.Require("websocket_publish_failures_injected", 50)
+	r.Require("deliveries_"+chWSClient, 100)
 	mb.ForbiddenHeaders()
-	var e *env
+	var e, le *env
 	defer func() {
 		if e != nil {
-			e.st.Destroy()
+			e.close()
+		}
+		if le != nil {
+			le.close()
 		}
 	}()
+	histFor := func(caseID string, maxN int) (*rand.Rand, gen.History, float64) {
+		rng := r.Rand(caseID)
+		o := gen.Opts{
+			N:          10 + rng.Intn(maxN),
+			PDup:       []float64{0.03, 0.1, 0.2}[rng.Intn(3)],
+			PUnknown:   []float64{0, 0.03, 0.1}[rng.Intn(3)],
+			PLate:      []float64{0, 0.05, 0.2}[rng.Intn(3)],
+			PFork:      []float64{0.05, 0.2, 0.5}[rng.Intn(3)],
+			Classes:    []string{"M", "MH", "MHL", "MHLZ", "MHLZNTUX", "MMMMHLR"}[rng.Intn(6)],
+			Forbidden:  mb.ForbiddenHeaders(),
+			PForbidden: []float64{0, 0.03}[rng.Intn(2)],
+		}
+		hist := gen.Random(rng, rig.Genesis(), o)
+		return rng, hist, []float64{0, 0.05, 0.15}[rng.Intn(3)]
+	}
 	n := r.Pick(150, 3000)
 	for i := 0; i < n; i++ {
 		caseID := fmt.Sprintf("h/%d", i)
 		r.Do(caseID, func() {
 			if e == nil {
 				var err error
-				if e, err = newEnv(r); err != nil {
+				if e, err = newEnv(r, false); err != nil {
 					e = nil
 					r.Violate("harness|rig", err.Error(), caseID, nil)
 					return
 				}
 			}
-			rng := r.Rand(caseID)
-			o := gen.Opts{
-				N:          10 + rng.Intn(r.Pick(110, 160)),
-				PDup:       []float64{0.03, 0.1, 0.2}[rng.Intn(3)],
-				PUnknown:   []float64{0, 0.03, 0.1}[rng.Intn(3)],
-				PLate:      []float64{0, 0.05, 0.2}[rng.Intn(3)],
-				PFork:      []float64{0.05, 0.2, 0.5}[rng.Intn(3)],
-				Classes:    []string{"M", "MH", "MHL", "MHLZ", "MHLZNTUX", "MMMMHLR"}[rng.Intn(6)],
-				Forbidden:  mb.ForbiddenHeaders(),
-				PForbidden: []float64{0, 0.03}[rng.Intn(2)],
-			}
-			hist := gen.Random(rng, rig.Genesis(), o)
-			pFail := []float64{0, 0.05, 0.15}[rng.Intn(3)]
+			rng, hist, pFail := histFor(caseID, r.Pick(110, 160))
 			e.runHistory(caseID, rng, hist, pFail, i%6 == 5)
+		})
+	}
+	// the same with a live websocket node and a real centrifuge client subscribed to "headers"
+	nLive := r.Pick(16, 320)
+	for i := 0; i < nLive; i++ {
+		caseID := fmt.Sprintf("live/%d", i)
+		r.Do(caseID, func() {
+			if le == nil {
+				var err error
+				if le, err = newEnv(r, true); err != nil {
+					le = nil
+					r.Inconclusive(caseID, "live websocket node could not be set up: "+err.Error())
+					return
+				}
+			}
+			rng, hist, pFail := histFor(caseID, 60)
+			le.runHistory(caseID, rng, hist, pFail, false)
 		})
 	}
 }
